@@ -18,7 +18,19 @@ def parse_case(line):
 
 
 def exists_assignment(n, rows):
-    # independent of the Coq model: plain enumeration of injective assignments
+    # independent of the Coq model: plain enumeration of injective assignments (small cases), augmenting paths (large ones)
+    if n > 8:
+        owner = {}
+
+        def place(p, seen):
+            for e in range(n):
+                if rows[p][e] and e not in seen:
+                    seen.add(e)
+                    if e not in owner or place(owner[e], seen):
+                        owner[e] = p
+                        return True
+            return False
+        return all(place(p, set()) for p in range(len(rows)))
     for f in itertools.permutations(range(n), len(rows)):
         if all(rows[p][e] for p, e in enumerate(f)):
             return True
@@ -68,6 +80,35 @@ def gen_cases(tier, seed):
             for p, e in enumerate(perm):
                 rows[p][e] = True
         cases.append(line_of(n, rng.random() < 0.5, rows))
+    # large collections, few patterns, sparse rows: the sizes at which a machine word, a small-vector or an index type of the
+    # bookkeeping runs out (around 8, 16, 32, 64, 128, 256 elements), with the few matching elements placed so that they
+    # coincide modulo those sizes
+    sizes = [15, 16, 17, 31, 32, 33, 63, 64, 65, 66, 70, 96, 127, 128, 129, 130, 200, 255, 256, 257, 300]
+    for _ in range(260 if tier == "quick" else 4000):
+        n = rng.choice(sizes)
+        k = rng.randint(1, 4)
+        m = rng.choice([8, 16, 32, 64, 128, 256])
+        base = rng.randrange(min(m, n))
+        cong = [e for e in range(n) if e % m == base]            # positions that coincide modulo m
+        rows = []
+        for _ in range(k):
+            row = [False] * n
+            pool = cong if (cong and rng.random() < 0.7) else list(range(n))
+            for e in rng.sample(pool, min(len(pool), rng.randint(1, 3))):
+                row[e] = True
+            rows.append(row)
+        cases.append(line_of(n, True, rows))
+    for n in ([33, 65] if tier == "quick" else [33, 65, 70, 129]):
+        # exact sets that large: a planted permutation with one or two candidates per pattern
+        perm = rng.sample(range(n), n)
+        rows = []
+        for p in range(n):
+            row = [False] * n
+            row[perm[p]] = True
+            if rng.random() < 0.5:
+                row[perm[(p + 1) % n]] = True
+            rows.append(row)
+        cases.append(line_of(n, False, rows))
     return cases, exhaustive
 
 
